@@ -173,6 +173,8 @@ def run_path(contract, func, loader, contracts_by_target, variant, prefix):
         for ax in lib_np.global_axioms():
             ctx.assume(ax)
         args, kwargs = contract.setup(v, variant)
+        if hasattr(contract, "setup_env_hook"):
+            contract.setup_env_hook(v)
         v.n_pre = len(ctx.pc)
         try:
             result = interp.call_repo(func, args, kwargs, as_root=True)
